@@ -331,6 +331,11 @@ class Taint:
                     k = ('P', base[0], tuple(x[1] for x in base[1]), ()) if base[1] else self.vkey(b, {'k': 'copy', 'pl': {'l': base[0], 'p': []}})
                     lo = self._range_low(b, t['args'][0])
                     self._bool_dispatches(b, t['dest']['l'], res, (k, None, lo is not None and lo >= 1))
+                    # the ends of the range are compared with x just the same (`(1..=max).contains(&window)` bounds max from below)
+                    for e_ in self._range_ends(b, t['args'][0]):
+                        ek = self.vkey(b, e_)
+                        if ek:
+                            self._bool_dispatches(b, t['dest']['l'], res, (ek, None, lo is not None and lo >= 1))
             if t['k'] == 'call' and 'q' in t['callee'] and len(t['args']) == 2 and not t['dest']['p'] and \
                     callee_q(t).split('::')[-1] in ('get', 'get_mut') and (callee_q(t).startswith('[T]::') or 'slice' in callee_q(t) or 'Vec' in callee_q(t)) and \
                     b.lty(t['dest']['l']).get('adt') == 'core::option::Option':
@@ -369,6 +374,20 @@ class Taint:
                     d[1]['rv']['ops'][0]['k'] == 'const':
                 return d[1]['rv']['ops'][0].get('int')
         return None
+
+    def _range_ends(self, b, op):
+        base = b.base_of(op)
+        out = []
+        if not base:
+            return out
+        for d in b.defs().get(base[0], []):
+            ops = []
+            if d[0] == 'call' and 'q' in d[1]['callee'] and callee_q(d[1]).endswith('RangeInclusive::new'):
+                ops = d[1]['args']
+            elif d[0] == 'assign' and d[1]['rv']['k'] == 'agg' and 'Range' in (d[1]['rv'].get('adt') or ''):
+                ops = d[1]['rv']['ops']
+            out += [o for o in ops if o['k'] in ('copy', 'move')]
+        return out
 
     def _bool_dispatches(self, b, l, res, ent):
         """register a comparison entry at every switch on (a negation / copy of) the boolean in local l"""
@@ -665,7 +684,10 @@ class Taint:
                     m = max(lv or [0])
                     if not m:
                         continue
-                    if ak in SINK_ASSERT_ALWAYS or (ak in SINK_ASSERT_WIDE and m == 2):
+                    # an addition / multiplication carried out in 32 bits (or less) overflows with 32-bit operands just the same
+                    narrow_op = ak in SINK_ASSERT_WIDE and m == 1 and any(self.op_type(b, o).get('bits', 64) <= 32 for o in aops if o['k'] in ('copy', 'move')) \
+                        and all(self.op_type(b, o).get('bits', 64) <= 32 for o in aops if o['k'] in ('copy', 'move'))
+                    if ak in SINK_ASSERT_ALWAYS or (ak in SINK_ASSERT_WIDE and m == 2) or narrow_op:
                         ops = [o for o, l1 in zip(aops, lv) if l1]
                         guards = [self.op_sanitised(b, o, bi) for o in ops]
                         if ak == 'BoundsCheck' and len(aops) == 2 and self.const_of(b, aops[1]) is not None \
@@ -676,6 +698,18 @@ class Taint:
                 elif t['k'] == 'call' and 'q' in t['callee']:
                     q = callee_q(t)
                     gq = t['callee']['q']
+                    if gq in ('core::ops::index::Index::index', 'core::ops::index::IndexMut::index_mut') and len(t['args']) == 2 and \
+                            t['args'][0]['k'] in ('copy', 'move') and t['args'][1]['k'] in ('copy', 'move') and \
+                            'Range' in (b.lty(t['args'][1]['pl']['l']).get('adt') or '') and self._is_str(b, b.lty(t['args'][0]['pl']['l'])):
+                        # a byte-offset slice of a string from the archive: off a character boundary it panics whatever its length
+                        l0 = vlevel(self.op_level(b, t['args'][0]))
+                        if l0:
+                            dom = b.dominators().get(bi, set())
+                            g = None
+                            for cbi, ct in b.calls():
+                                if 'q' in ct['callee'] and callee_q(ct).endswith('is_char_boundary') and cbi in dom:
+                                    g = cbi
+                            out.append(self.site(b, 'str-slice', [t['args'][0]], t['loc'], l0, g is not None, [g]))
                     for key in (q, gq):
                         if key in SINK_CALLS:
                             for ai in SINK_CALLS[key]:
@@ -703,6 +737,11 @@ class Taint:
                                     out.append(self.site(b, 'store:' + rv['adt'].split('::')[-1] + ('::' + var if var else '') + '.' + name,
                                                          [o], st['loc'], l1, g is not None, [g]))
         return out
+
+    def _is_str(self, b, ty, depth=0):
+        if ty.get('k') in ('ref', 'rawptr') and ty.get('args') and depth < 3:
+            return self._is_str(b, b.ty(ty['args'][0]), depth + 1)
+        return ty.get('k') == 'str' or ty.get('s') in ('str', 'std::string::String', 'alloc::string::String') or ty.get('adt') == 'alloc::string::String'
 
     def const_of(self, b, o, depth=0):
         if o['k'] == 'const':
